@@ -216,7 +216,8 @@ def c11_c(ctx: Ctx):
 def c11_d(ctx: Ctx):
     """Detection path: check()/repair() read exactly the state point file (never a parked backup), so a job interrupted between the two renames of a re-key is reported (from C09-a)."""
     from .c09 import c09_a
-    res = [r for r in c09_a(ctx) if "|reads" in r.construct or "error-mapping" in r.construct]
+    from .c09 import c09_b
+    res = [r for r in c09_a(ctx) if "|reads" in r.construct or "error-mapping" in r.construct or "keyerror-guard" in r.construct] + [r for r in c09_b(ctx) if "extra-handler" in r.construct]
     for r in res:
         r.rule = "C11-d"
     return res
